@@ -126,6 +126,28 @@ def stmt(s):
         lock = {"m1": "m1.lock(key)", "rw_r": "rw.read(key)", "rw_w": "rw.write(key)", "ct": "ct.lock(key)",
                 "pm": "pm.lock(key).unwrap()"}[x]
         return [], ["let g = %s;" % lock, "let _h: %s = Clone::clone(&g);" % ty]
+    if k == "n_hold_field":
+        f = {"m1": "mutex", "rw_w": "rwlock", "rw_r": "rwlock"}.get(x, "guard")
+        return [], ["let _h = g.%s;" % f]
+    if k == "n_destructure_guard":
+        ty = {"m1": "happylock::mutex::MutexGuard", "rw_w": "happylock::rwlock::RwLockWriteGuard",
+              "rw_r": "happylock::rwlock::RwLockReadGuard", "pm": "happylock::poisonable::PoisonGuard"}.get(x, "happylock::collection::LockGuard")
+        return [], ["let %s { .. } = g; let %s { %s: _k, .. } = g;" % (ty, ty, KEYFIELD[x])]
+    if k == "n_write_through_read_guard":
+        return [], ["*g += 1;"]
+    if k == "n_key_default":
+        return [], ["let _k: ThreadKey = Default::default();"]
+    if k == "n_key_from_thread":
+        return [], ["let _k2 = std::thread::spawn(|| ThreadKey::get().unwrap()).join().unwrap();"]
+    if k == "n_guard_from_thread":
+        return [], ["let _g2 = std::thread::scope(|s| s.spawn(|| m2.lock(ThreadKey::get().unwrap())).join().unwrap());"]
+    if k == "n_key_in_static":
+        return ["static KEYSLOT: std::sync::Mutex<Option<ThreadKey>> = std::sync::Mutex::new(None);"], []
+    if k == "n_write_in_scoped_read":
+        if x == "rw_r":
+            return [], ["rw.scoped_read(&mut key, |d| { *d += 1; });"]
+        return [], ["let owr = OwnedLockCollection::new((RwLock::new(0i32), RwLock::new(1i32)));",
+                    "owr.scoped_read(&mut key, |d| { *d.0 += 1; });"]
     if k == "n_guard_field":
         return [], ["let _k = g.%s;" % KEYFIELD[x]]
     if k == "n_scope_spawn_guard":
@@ -184,7 +206,9 @@ def stmt(s):
 C14_CLASSES = {"n_lock_moved_key", "n_nested_scoped_same_key", "n_lock_in_scoped", "n_spawn_key", "n_scope_spawn_key",
                "n_share_key_lock", "n_clone_key", "n_copy_key", "n_lock_borrowed_key", "n_lock_shared_ref_key",
                "n_guard_field", "n_scope_spawn_guard", "n_move_hold_out", "n_take_holds", "n_forge_key",
-               "n_impl_keyable", "n_impl_sealed", "n_scoped_shared_ref_key", "n_clone_hold", "n_clone_guard"}
+               "n_impl_keyable", "n_impl_sealed", "n_scoped_shared_ref_key", "n_clone_hold", "n_clone_guard",
+               "n_hold_field", "n_destructure_guard", "n_key_default", "n_key_from_thread", "n_guard_from_thread",
+               "n_key_in_static"}
 
 
 def render_prog(p):
